@@ -60,7 +60,7 @@ CLAIMED = {
          "Trees are abstract keys (identity is C03); integer scores (NaN outside); pandas order of tied rows unspecified, rows compared up to ties.",
          "DESIGN.md section 6 C11"),
  "C12": ("Coq proof on a model of get_labels_table / get_clone_table / the graph conversion / the Newick structure + exhaustive differential run of the three real commands",
-         "Theorems for every labelled tree: each mutation exactly once per sample (clustered and unclustered, outlier fill-in), clone ids are Newick nodes or -1, clusters share a clone, values are the clone's or -1; the commands complete iff ... (pinned: iff the tree has a clone; repaired: always). Tie: real map/consensus/topology outputs parsed back for every tree over <= 3 points incl. all-outlier and single-clone, clustered/unclustered, 1-3 samples.",
+         "Theorems for every labelled tree: each mutation exactly once per sample (clustered and unclustered, outlier fill-in), clone ids are Newick nodes or -1, clusters share a clone, values are the clone's or -1; the commands complete for every tree (pinned conversion: only for trees with at least one clone, refuted for the all-outlier tree). Tie: real map/consensus/topology outputs parsed back for every tree over <= 3 points incl. all-outlier and single-clone, clustered/unclustered, 1-3 samples.",
          "CCF values are inputs of the model (C10); the Newick text is parsed by the harness; the model variant (pinned/repaired conversion) is selected by observed behaviour.",
          "DESIGN.md section 6 C12"),
  "C14": ("Coq proof (an LRU table with arbitrary capacity, evictions and clears refines the function under key soundness; soundness of the three key shapes) + call-by-call shadowing of every cache against the undecorated function in real multi-sweep runs",
@@ -121,7 +121,7 @@ def main():
                      "kind_free_text": "Coq 8.16.1 development (/verif/coq) + Python harness (/verif/harness/pv) doing exact-enumeration correspondence and property search"}],
         "checks": checks,
         "not_applicable": [{"property_id": pid, "reason": NOT_YET} for pid in ids if pid not in CLAIMED],
-        "notes": "See DESIGN.md. Known findings: known_findings.json.",
+        "notes": "DESIGN.md section 10 describes what was built, the theorems, the trusted base, the 14 repaired defects and the seeded changes (seeded/). Known findings: known_findings.json. tools_seeded.py / tools_seeded_confirm.py run the checks against a patch in a scratch worktree (PV_REPO) without touching /repo.",
     }
     json.dump(man, open(os.path.join(HERE, "MANIFEST.json"), "w"), indent=1)
 
